@@ -21,6 +21,8 @@ for p in props:
         for ct in sorted(rows, key=lambda c: c.cid):
             cl = [k for k in ct.ensures if not k.startswith(("bounded:", "exc:"))]
             st = "trusted (assumed, body not verified)" if ct.trusted else ("frame/ghost-only (havoc loops)" if ct.unwind == "havoc" else "verified")
+            if ct.trusted and ct.cid in C.DISCHARGED:
+                st = f"call-site summary; every clause proved from the body as {C.DISCHARGED[ct.cid]}"
             if ct.inline:
                 st = "inlined into callers"
             print(f"| {ct.cid} | `{ct.file.split('/')[-1]}:{ct.func}` | {', '.join(cl) or '-'} | {st} |")
